@@ -116,6 +116,14 @@ func (p *Program) verifyFunctionWith(cs *ContractSet, ct *Contract, findings map
 			saved := ex.curEnv
 			ex.curEnv = env
 			for i, cl := range ct.Allocs {
+				if cl.Label == "make" {
+					// only explicit make sites (append growth is paid for by the elements actually decoded)
+					switch in.(type) {
+					case *ssa.MakeSlice, *ssa.MakeMap:
+					default:
+						continue
+					}
+				}
 				t, err := env.evalBool(cl.Text)
 				if err != nil {
 					ex.specError(cl, err)
